@@ -720,7 +720,7 @@ func (r *runner) tamperAll(label string, signed *lib.Transaction, pathSel []stri
 func Run(o *drv.Out) {
 	// every ApplyTransactions call allocates a full-size batch verifier (~50 MB): collect less often
 	debug.SetGCPercent(400)
-	w := newWorld()
+	w := newWorld(o.Rng)
 	defer w.cleanup()
 	for _, sc := range schemes {
 		if err := w.crossCheckConstructors(sc); err != nil {
@@ -786,7 +786,7 @@ func (r *runner) runOpenMultisig() {
 		if acc := r.base.accts[string(a0)]; acc != nil {
 			r.o.Op(fmt.Sprintf("acct %s %d %d", drv.Hex(a0), acc.Amount, acc.Nonce), "ok")
 		}
-		msg := &fsm.MessageSend{FromAddress: a0, ToAddress: recipient, Amount: 1000}
+		msg := &fsm.MessageSend{FromAddress: a0, ToAddress: recipient, Amount: 1000 + w.j}
 		for _, subset := range [][]int{{0}, {1, 2}, {0, 1, 2}} {
 			tx := w.envelope(msg, fsm.MessageSendName)
 			signMulti(tx, own, 0, subset, r.f)
@@ -800,7 +800,7 @@ func (r *runner) runOpenMultisig() {
 		r.offer("threshold-0:no-signer:identity-signature", tx, "", nil, paths)
 		_ = before
 		// the same under own's real (threshold 2) key
-		tx2 := w.envelope(&fsm.MessageSend{FromAddress: own.addr, ToAddress: recipient, Amount: 1000}, fsm.MessageSendName)
+		tx2 := w.envelope(&fsm.MessageSend{FromAddress: own.addr, ToAddress: recipient, Amount: 1000 + w.j}, fsm.MessageSendName)
 		tx2.Signature = &lib.Signature{PublicKey: own.multiKey(2).Bytes(), Signature: inf}
 		r.offer("threshold-2:no-signer:identity-signature", tx2, "", nil, paths)
 	})
